@@ -397,6 +397,8 @@ func (l *vLoop) checkPublished(tag0 string) {
 		newer := zz.And(remoteHasKey, zz.And(l.remoteTS >= uint64(w.tclock), e.ts == l.remoteTS))
 		if w.del {
 			zz.Assert(zz.Or(e.flags&1 != 0, newer), "C09/"+tag+"/shadow/delete-published")
+			// the same fact is C04's first clause: an application delete propagates as a marker
+			zz.Assert(zz.Or(e.flags&1 != 0, newer), "C04/"+tag+"/shadow/delete-propagates-as-marker")
 		} else {
 			zz.Assert(zz.Or(zz.And(e.flags&1 == 0, bytes.Equal(e.val, w.val)), newer), "C09/"+tag+"/shadow/write-published")
 		}
